@@ -18,15 +18,15 @@ type cval struct {
 }
 
 type cenv struct {
-	e      *enc
-	vars   map[string]cval
-	lookup func(string) (cval, bool)
-	st     hstate
-	old    hstate
-	pkg    string
-	depth  int
-	atEntry func() *cenv // environment of the enclosing loop's entry edge (for atentry())
-	nextEnv func() *cenv // environment at the end of the iteration (for next() in step clauses)
+	e         *enc
+	vars      map[string]cval
+	lookup    func(string) (cval, bool)
+	st        hstate
+	old       hstate
+	pkg       string
+	depth     int
+	atEntry   func() *cenv      // environment of the enclosing loop's entry edge (for atentry())
+	nextEnv   func() *cenv      // environment at the end of the iteration (for next() in step clauses)
 	loopEnvOf func(n int) *cenv // header environment of loop n (for loopval())
 }
 
@@ -138,6 +138,12 @@ func (c *cenv) selectField(x cval, name string) (cval, error) {
 			switch l.kind {
 			case "field":
 				cur = cval{e.loadIn(l, c.st), l.sort, l.t}
+				if l.sort == "Ref" {
+					e.assume(e.allocatedIn(cur.s, l.arr, c.st, l.ref))
+				}
+				if l.sort == "Iface" {
+					e.assume(fmt.Sprintf("(=> (is-IPtr %s) %s)", cur.s, e.allocatedIn("(iptr "+cur.s+")", l.arr, c.st, l.ref)))
+				}
 			case "struct":
 				cur = cval{l.ref, "Ref", types.NewPointer(l.t)}
 			default:
@@ -799,6 +805,28 @@ func (c *cenv) call(x *CCall) (cval, error) {
 			return cval{}, err
 		}
 		if !e.strTheory {
+			// opaque strings: uninterpreted search functions with their range facts
+			switch x.Fn {
+			case "indexOf", "indexFrom":
+				t := fmt.Sprintf("(sindexof %s %s)", a[0].s, a[1].s)
+				if x.Fn == "indexFrom" {
+					t = fmt.Sprintf("(sindexfrom %s %s %s)", a[0].s, a[1].s, e.toInt(a[2].s))
+				}
+				e.assume(fmt.Sprintf("(and (>= %s (- 1)) (<= (+ %s (slen %s)) (slen %s)))", t, t, a[1].s, a[0].s))
+				return cval{e.fromInt(t), "ISort", types.Typ[types.Int]}, nil
+			case "contains":
+				t := fmt.Sprintf("(sindexof %s %s)", a[0].s, a[1].s)
+				e.assume(fmt.Sprintf("(and (>= %s (- 1)) (<= (+ %s (slen %s)) (slen %s)))", t, t, a[1].s, a[0].s))
+				return cval{fmt.Sprintf("(>= %s 0)", t), "Bool", nil}, nil
+			case "prefixOf":
+				t := fmt.Sprintf("(sprefixof %s %s)", a[0].s, a[1].s)
+				e.assume(fmt.Sprintf("(=> %s (<= (slen %s) (slen %s)))", t, a[0].s, a[1].s))
+				return cval{t, "Bool", nil}, nil
+			case "suffixOf":
+				t := fmt.Sprintf("(ssuffixof %s %s)", a[0].s, a[1].s)
+				e.assume(fmt.Sprintf("(=> %s (<= (slen %s) (slen %s)))", t, a[0].s, a[1].s))
+				return cval{t, "Bool", nil}, nil
+			}
 			return cval{}, fmt.Errorf("%s needs strings theory", x.Fn)
 		}
 		switch x.Fn {
@@ -818,7 +846,7 @@ func (c *cenv) call(x *CCall) (cval, error) {
 		if err != nil {
 			return cval{}, err
 		}
-		return cval{fmt.Sprintf("(>= (birth %s) %s)", a[0].s, e.now(c.old)), "Bool", nil}, nil
+		return cval{fmt.Sprintf("(and (> %s 0) (>= (birth %s) %s))", a[0].s, a[0].s, e.now(c.old)), "Bool", nil}, nil
 	case "held", "rheld":
 		a, err := c.args(x, 1)
 		if err != nil {
